@@ -296,7 +296,14 @@ func c13Gen(seed int64, idx int) *c13Chain {
 						if gi := c13GapIndex(cur); gi >= 0 && r.Chance(1, 2) {
 							// one part that spans a gap of the base, written with numbers or with min / max
 							last := len(cur) - 1
-							switch r.Intn(3) {
+							switch r.Intn(5) {
+							case 3:
+								// a part that lies in the gap altogether: its upper end is below the next base part
+								g := add(cur[gi].Hi, 1)
+								parts = []yang.Interval{{Lo: g, Hi: g}}
+							case 4:
+								// a part that starts inside a base part and ends in the gap behind it
+								parts = []yang.Interval{{Lo: randIn(r, cur[gi].Lo, cur[gi].Hi), Hi: add(cur[gi].Hi, 1)}}
 							case 0:
 								parts = []yang.Interval{{Lo: cur[0].Lo, Hi: cur[last].Hi}}
 							case 1:
